@@ -2,6 +2,11 @@
 # prints the sub-agent prompt for seeding a breaking change for property <ID> (only the property text + worktree path)
 import json,sys
 pid=sys.argv[1]; n=sys.argv[2] if len(sys.argv)>2 else ""
+taken=""
+try:
+    m=json.load(open(f"/verif/seeded/{pid}/meta.json"))
+    if n: taken="\nALREADY TAKEN (someone else already did this one - pick a DIFFERENT mechanism, in a different function if possible): "+m.get("summary","")[:600]+"\n"
+except Exception: pass
 rec=[json.loads(l) for l in open('/verif/properties.jsonl') if json.loads(l)['id']==pid][0]
 for k in ('added_in_round','source'): rec.pop(k,None)
 wt=f"/tmp/seedwt-{pid}{n}"; out=f"/tmp/seed-out/{pid}{n}"
@@ -10,6 +15,7 @@ print(f"""You are helping to evaluate a verification effort for the Go project h
 PROPERTY (JSON record):
 {json.dumps(rec,indent=1)}
 
+{taken}
 WORKSPACE: your own scratch git worktree of the repository is at {wt} (already created; work ONLY there; never touch /repo or /verif, and do not read anything under /verif). Write results to {out}/ (create it).
 
 GO ENVIRONMENT (no network; run this at the start of EVERY shell command, env is not kept):
